@@ -21,6 +21,9 @@ SHAPES = {
     "ov": [("TS", 3, 4), ("KS", KEYS[2]), "W", ("ON", 0), "W", ("ON", 1), "W", ("OFF", 0), "W", ("OFF", 1), "W"],
     "seq": [("TS", 3, 4), ("KS", KEYS[2]), ("ON", 0), "W", ("OFF", 0), "W", ("ON", 1), "W", ("OFF", 1)],
     "sim": [("TS", 3, 4), ("KS", KEYS[2]), ("ON", 0), ("ON", 1), "W", ("OFF", 0), "W", ("OFF", 1), "W"],
+    # a single signature event and a cross-channel onset tie after a leading rest
+    "simw_ts": [("TS", 3, 4), "W", ("ON", 0), ("ON", 1), "W", ("OFF", 0), "W", ("OFF", 1)],
+    "simw_ks": [("KS", KEYS[2]), "W", ("ON", 0), ("ON", 1), "W", ("OFF", 0), "W", ("OFF", 1)],
     "n3": [("TS", 3, 4), ("KS", KEYS[2]), ("ON", 0), "W", ("ON", 1), "W", ("OFF", 0), ("ON", 2), "W", ("OFF", 1), "W",
            ("OFF", 2)],
 }
@@ -37,11 +40,15 @@ class Content:
         self.total = total
 
     def copy(self):
-        return Content([list(n) for n in self.notes], list(self.ts), list(self.ks), self.total, self.meta_ch)
+        return Content([list(n) for n in self.notes], list(self.ts) if self.ts else None, list(self.ks) if self.ks else None,
+                       self.total, self.meta_ch)
 
     def messages(self):
-        ms = [ts(self.ts[0], self.ts[1], time=self.ts[2], ch=self.meta_ch),
-              ks(KEYS[self.ks[0]], time=self.ks[1], ch=self.meta_ch)]
+        ms = []
+        if self.ts is not None:
+            ms.append(ts(self.ts[0], self.ts[1], time=self.ts[2], ch=self.meta_ch))
+        if self.ks is not None:
+            ms.append(ks(KEYS[self.ks[0]], time=self.ks[1], ch=self.meta_ch))
         for c, p, s, e, v in self.notes:
             ms.append(on(c, p, v, time=s))
             ms.append(off(c, p, time=e))
@@ -61,9 +68,13 @@ def build_abs(content, order=None, cap=True):
 
 
 def base(ctx, shape, wmax, uniform_channel):
-    b = build_rel(ctx, SHAPES[shape], pitch=(60, 62), chan=(0, 0) if uniform_channel else (0, 1), wait=(1, wmax), vel=(0, 127))
+    # the signature events sit on channel 0, or on a symbolic channel for the shape with a cross-channel onset tie
+    mch = ctx.int("meta_ch", 0, 1) if shape.startswith("simw") and not uniform_channel else 0
+    b = build_rel(ctx, SHAPES[shape], pitch=(60, 62), chan=(0, 0) if uniform_channel else (0, 1), wait=(1, wmax), vel=(0, 127),
+                  meta_ch=mch)
     ctx.assume(distinct_keys_or_disjoint(ctx, b.notes))
-    cont = Content([[n.ch, n.pitch, n.start, n.end, n.vel] for n in b.notes], [3, 4, 0], [2, 0], b.total)
+    cont = Content([[n.ch, n.pitch, n.start, n.end, n.vel] for n in b.notes], [3, 4, 0] if shape != "simw_ks" else None,
+                   [2, 0] if shape != "simw_ts" else None, b.total, meta_ch=mch)
     return b, cont
 
 
@@ -160,11 +171,15 @@ def q_perturb(shape, wmax, attr, dmax, which):
 def queries(tier, seed):
     qs = []
     wmax, dmax = (16, 6) if tier == "quick" else (32, 12)
-    shapes = ["ov", "seq", "sim"] + (["n3"] if tier == "thorough" else [])
+    shapes = ["ov", "seq", "sim", "simw_ts", "simw_ks"] + (["n3"] if tier == "thorough" else [])
     note_orders = [[0, 1] + [2 + j for j in p] for p in itertools.permutations(range(4))]
     rot = [list(range(k, 6)) + list(range(k)) for k in range(6)]
     for s in shapes:
         qs.append(q_same(s, wmax))
+        if s.startswith("simw"):
+            for attr in (("ts_tick", "ts_value", "onset") if s == "simw_ts" else ("ks_tick", "ks_value", "velocity")):
+                qs.append(q_perturb(s, min(wmax, 5), attr, dmax, 0))
+            continue
         if s != "n3":
             qs.append(q_orders(s, wmax, note_orders, "notes24"))
             qs.append(q_orders(s, wmax, rot, "rot6"))
